@@ -245,7 +245,9 @@ func (c *Ctx) runNativeChunked(run *NativeRunner, cases []ReplayCase) ([]ReplayO
 	var all []ReplayOutcome
 	i := 0
 	for i < len(cases) {
-		outs, err := run.Run(cases[i:], 60*time.Second)
+		// every case has its own 45 s allowance inside the replay process (rt.CaseTimeout); the
+		// limit here only guards against a process that does not come back at all
+		outs, err := run.Run(cases[i:], time.Duration(60+50*min(len(cases)-i, 40))*time.Second)
 		if err != nil {
 			return all, err
 		}
